@@ -186,8 +186,22 @@ def resolve_expr(mod, e: ast.AST, depth: int = 0) -> ast.AST:
 
 
 # --------------------------------------------------------------------- non-emptiness facts
+# name -> container for locals that are, once, `len(<container>)` of a container the function never shrinks (set by the
+# non-emptiness analysis for the function at hand)
+LEN_ALIASES: Dict[str, str] = {}
+
+
 def nonempty_facts(test: ast.AST, polarity: bool) -> Set[str]:
     """containers known non-empty when `test` evaluates to `polarity`"""
+    if LEN_ALIASES:
+        class _L(ast.NodeTransformer):
+            def visit_Name(self, n: ast.Name):
+                if n.id in LEN_ALIASES and isinstance(n.ctx, ast.Load):
+                    return ast.copy_location(ast.Call(func=ast.Name(id="len", ctx=ast.Load()), args=[ast.Name(id=LEN_ALIASES[n.id], ctx=ast.Load())], keywords=[]), n)
+                return n
+        import copy as _copy
+        if any(isinstance(n, ast.Name) and n.id in LEN_ALIASES for n in ast.walk(test)):
+            test = _L().visit(_copy.deepcopy(test))
     if isinstance(test, ast.Name):
         return {test.id} if polarity else set()
     if isinstance(test, ast.UnaryOp) and isinstance(test.op, ast.Not):
